@@ -32,6 +32,12 @@ type caseT struct {
 	Mesh  func(m *meshconfig.MeshConfig)
 	// Registry returns services and instances of the second (memory) registry; fixed part of the case.
 	Registry func() ([]*model.Service, []*model.ServiceInstance)
+	// Churn names objects ("Kind/namespace/name") that exist while the first push context is built and are
+	// deleted afterwards; the generation then runs on a push context derived incrementally from the first
+	// one (ConfigsUpdated = the deleted objects), as istiod does after a delete event. The rebuilt push
+	// context of repetition 2 is a cold computation on the same final objects. Only kinds that no
+	// asynchronous controller watches in this environment are used.
+	Churn []string
 }
 
 type replayT struct {
